@@ -43,14 +43,14 @@ def run(chk, repo):
         "executions)."
     )
     chk.trusted = ["call graph over-approximates calls (references to functions count as calls)", "fsspec.get_mapper infers the protocol from its URL argument"]
-    chk.attempt(g1_g2, chk, op)
+    chk.attempt(open_protocol, chk, repo)
+    chk.attempt(g1_g2, chk, op, covered_by="open_protocol", rules=("C07-G1", "C07-G2"))
     chk.attempt(g3_threading, chk, op, "C07-G3")
-    chk.attempt(g4, chk, op)
+    chk.attempt(g4, chk, op, covered_by="open_protocol", rules=("C07-G4", "C07-G7"))
     chk.attempt(codec_hit, chk, repo)
     from .codec_rules import missing_stamps
     chk.attempt(missing_stamps, chk, repo, "C07-K9")
     chk.attempt(check_codec, chk, repo, "C07", covered_by="codec_hit", rules=tuple(f"C07-K{i}" for i in range(1, 8)))
-    chk.attempt(open_protocol, chk, repo)
     chk.attempt(write_then_read, chk, repo)
     chk.attempt(naming, chk, op)
     chk.attempt(naming_writer_reader, chk, op, covered_by="write_then_read", rules=("C07-N",))
